@@ -504,6 +504,7 @@ package mcp
 //@   ensures @closed-connection-is-identified closing ==> $result != nil && errIs($result, ErrConnectionClosed) && calls(retire) == 0
 //@   ensures @abandoned-call-is-retired-first !closing && callResult(ctxErr, 1, 0) != nil ==> calls(retire) == 1 && callArg(retire, 1, 1) == callResult(start, 1, 0)
 //@        && calls(spawnNotify) == 1 && calls(notifyInline) == 0 && calls(legacyCancel) == 0
+//@   ensures @abandoned-call-returns-the-context-error !closing && callResult(ctxErr, 1, 0) != nil ==> calls(ctxErr) >= 2 && $result == lastResult(ctxErr, 0) && $result != nil
 //@   ensures @no-cancel-traffic-otherwise closing || callResult(ctxErr, 1, 0) == nil ==> calls(retire) == 0 && calls(spawnNotify) == 0 && calls(notifyInline) == 0
 //@   ensures @peer-error-is-returned !closing && callResult(ctxErr, 1, 0) == nil && awaitErr != nil ==> $result != nil && errIs($result, awaitErr)
 //@   ensures @success !closing && callResult(ctxErr, 1, 0) == nil && awaitErr == nil ==> $result == nil
@@ -1129,7 +1130,7 @@ package mcp
 // Client.Connect (C07): the version requested is never empty - no options, or options without a version, mean the
 // latest version, which starts with the stateless server/discover probe; the legacy initialize that follows a failed
 // probe asks for 2025-11-25; an explicitly requested version is used as given.
-//@ func (*Client).Connect [C07]
+//@ func (*Client).Connect [C07, C13]
 //@   track connect as dial
 //@   track discover as probe
 //@   track capabilities as caps
@@ -1138,6 +1139,9 @@ package mcp
 //@   ghost wanted := at(dialled, opts.ProtocolVersion)
 //@   requires c != nil
 //@   modifies *
+//@   track handleNotify as announce
+//@   snapshot announced after call handleNotify
+//@   ensures @legacy-handshake-starts-keep-alive-iff-configured result.1 == nil && calls(announce) == 1 ==> calls(keepalive) <= 1 && (calls(keepalive) == 1 <==> at(announced, c.opts.KeepAlive) > 0)
 //@   assert at call capabilities: @requested-version-is-never-empty $1 != ""
 //@   assert at call capabilities: @explicit-legacy-version-is-used-as-given opts != nil && wanted != "" && wanted < protocolVersion20260728 ==> $1 == wanted
 //@   assert at call capabilities: @default-falls-back-to-the-last-legacy-version (opts == nil || wanted == "") ==> $1 == protocolVersion20251125
@@ -1286,6 +1290,8 @@ package mcp
 //@   modifies *
 //@   ensures @connection-closed-once-per-call calls(closeConn) == 1
 //@   ensures @hook-at-most-once-per-call calls(hook) <= 1 && (calls(hook) == 1 ==> calls(claim) == 1 && callResult(claim, 1, 0))
+//@   snapshot connClosed after call (*Connection).Close
+//@   ensures @the-winning-close-always-runs-the-hook at(connClosed, ss.onClose != nil) ==> calls(claim) == 1 && (callResult(claim, 1, 0) ==> calls(hook) == 1)
 //@   assert at call ss.onClose: @hook-runs-after-the-connection-is-closed calls(closeConn) == 1
 //@   assert at call CompareAndSwap: @claims-the-false-to-true-transition !$1 && $2
 //@   loop 1: invariant @connection-still-there ss.conn == old(ss.conn) && calls(closeConn) == 0
@@ -1333,7 +1339,9 @@ package mcp
 
 // Server.Connect (C13): keep-alive is started, with the configured interval, exactly when one is configured, and
 // before the session is handed to the caller.
-//@ func (*Server).Connect [C13]
+//@ func (*Server).Connect [C13, C07]
+//@   track filterSupportedVersions as offered
+//@   ensures @offered-versions-are-computed-for-this-transport result.1 == nil ==> calls(offered) == 1 && callArg(offered, 1, 0) == t
 //@   track connect as dial
 //@   track (*ServerSession).startKeepalive as keepalive
 //@   requires s != nil
@@ -1350,3 +1358,11 @@ package mcp
 //@   ensures @unknown-method !inDom(infos, req.Method) ==> result.1 != nil && errIs(result.1, jsonrpc2.ErrNotHandled)
 //@   ensures @known-method-accepted-or-invalid inDom(infos, req.Method) ==> result.1 == nil || errIs(result.1, jsonrpc2.ErrInvalidRequest)
 //@   ensures @accepted-request-gets-its-own-method-info result.1 == nil ==> inDom(infos, req.Method) && result.0 == infos[req.Method]
+
+// notifySessions (generic fan-out helper, C18): one delivery attempt per session, whatever the outcome of the
+// earlier ones - a failing or closing session does not starve the sessions after it.
+//@ func notifySessions [C18]
+//@   track handleNotify as deliver
+//@   modifies *
+//@   ensures @every-session-gets-its-attempt len(sessions) > 0 ==> calls(deliver) == len(sessions)
+//@   loop 1: invariant @one-attempt-per-session-so-far calls(deliver) == $idx
